@@ -2493,8 +2493,10 @@ class Gw1n:
         fmax, _, mmax = max(outs, key=lambda o: o[0])
         ints = is_int(clkin) and all(is_int(f) for f, _, _ in outs)
         fl = Flags()
+        region = None
         cands = []
         robust = None
+        robs = []            # every robustly valid (idiv, fdiv, odiv, CLKOUT frequency) for the highest request
         for idiv in range(1, 64):
             pfd = clkin / idiv
             ex = ints and int(clkin) % idiv == 0
@@ -2512,9 +2514,11 @@ class Gw1n:
                         continue
                     if fl.cmp_le(lo, vco, vm == 0 and ints, "vco>=min") and fl.cmp_le(vco, hi, vm == 0 and ints, "vco<=max") and good:
                         cands.append((diff, idiv, fdiv, odiv))
-                        if robust is None and (diff <= fmax * mmax - SLACK * fmax or (diff == 0 and ints)) and \
+                        if (diff <= fmax * mmax - SLACK * fmax or (diff == 0 and ints)) and \
                                 rob_in(lo, vco, hi, vm == 0 and ints) and rob_in(pmin, pfd, pmax, ex):
-                            robust = (idiv, fdiv, odiv)
+                            if robust is None:
+                                robust = (idiv, fdiv, odiv)
+                            robs.append((idiv, fdiv, odiv, of))
         first = None
         if cands:
             best = min(x[0] for x in cands)
@@ -2580,11 +2584,27 @@ class Gw1n:
         elif real["status"] == "rejected":
             if "No PLL config found" in real.get("exc", "") and robust is not None:
                 viol.append("refused although idiv=%s fdiv=%s odiv=%s satisfies the request" % robust)
+            elif "Can't obtain requested frequency" in real.get("exc", "") and len(outs) > 1:
+                # open finding C20-gw1n-best-only-incomplete: only the pair closest to the highest request is tried
+                # against the slower clocks; region = the best pair misses a slower clock while ANOTHER in-margin pair
+                # serves every clock (with the code's own dividers th = freq_max // f) robustly
+                ths = [math.floor(fmax / f) for f, _, _ in outs]
+                best_of = clkin * first[1] / first[0] if first is not None else None
+                def serves(of, slack):
+                    return all(th >= 1 and abs(of / th - f) <= (of / th) * m - slack * f or (abs(of / th - f) == 0 and ints)
+                               for th, (f, _, m) in zip(ths, outs))
+                if best_of is not None and min(ths) >= 1 and not serves(best_of, -SLACK) and \
+                        any(serves(of, SLACK) for (_, _, _, of) in robs):
+                    region = "C20-gw1n-best-only-incomplete"
+                elif best_of is not None and min(ths) >= 1 and serves(best_of, SLACK):
+                    viol.append("refused although the best pair idiv=%s fdiv=%s serves every requested clock" % (first[0], first[1]))
         elif real["status"] == "assertion":
             pass
         else:
             viol.append("unexpected exception " + real.get("exc", ""))
-        return viol, fl.borderline, fl.why, first
+        if viol:
+            region = None
+        return viol, fl.borderline, fl.why, first, region
 
     def first_key(self, real):
         return (real["idiv"], real["fdiv"], real["odiv"])
